@@ -1037,6 +1037,8 @@ def _read_fstr(ctx: ReaderContext) -> str | llist.PersistentList:
             elems.append("".join(s))
             s = []
             expr = _read_next(ctx)
+            if expr is ctx.eof:
+                raise ctx.eof_error("Unexpected EOF in string")
             elems.append(expr)
             char = _consume_whitespace(ctx)
             if char != "}":
@@ -1186,7 +1188,7 @@ def _read_meta(ctx: ReaderContext) -> IMeta:
     input stream."""
     start = ctx.reader.advance()
     assert start == "^"
-    meta = _read_next_consuming_comment(ctx)
+    meta = _read_next_form(ctx, "metadata")
 
     meta_map: lmap.PersistentMap[LispForm, LispForm] | None
     if isinstance(meta, sym.Symbol):
@@ -1202,7 +1204,7 @@ def _read_meta(ctx: ReaderContext) -> IMeta:
             f"Expected symbol, keyword, or map for metadata, not {type(meta)}"
         )
 
-    obj_with_meta = _read_next_consuming_comment(ctx)
+    obj_with_meta = _read_next_form(ctx, "form with metadata")
     if isinstance(obj_with_meta, IWithMeta):
         new_meta = (
             obj_with_meta.meta.cons(meta_map)
@@ -1323,7 +1325,7 @@ def _read_quoted(ctx: ReaderContext) -> llist.PersistentList:
     """Read a quoted form from the input stream."""
     start = ctx.reader.advance()
     assert start == "'"
-    next_form = _read_next_consuming_comment(ctx)
+    next_form = _read_next_form(ctx, "quoted form")
     return llist.l(_QUOTE, next_form)
 
 
@@ -1433,7 +1435,9 @@ def _read_syntax_quoted(ctx: ReaderContext) -> RawReaderForm:
     assert start == "`"
 
     with ctx.syntax_quoted():
-        return _process_syntax_quoted_form(ctx, _read_next_consuming_comment(ctx))
+        return _process_syntax_quoted_form(
+            ctx, _read_next_form(ctx, "syntax-quoted form")
+        )
 
 
 def _read_unquote(ctx: ReaderContext) -> LispForm:
@@ -1456,10 +1460,10 @@ def _read_unquote(ctx: ReaderContext) -> LispForm:
         next_char = ctx.reader.peek()
         if next_char == "@":
             ctx.reader.advance()
-            next_form = _read_next_consuming_comment(ctx)
+            next_form = _read_next_form(ctx, "unquote-spliced form")
             return llist.l(_UNQUOTE_SPLICING, next_form)
         else:
-            next_form = _read_next_consuming_comment(ctx)
+            next_form = _read_next_form(ctx, "unquoted form")
             return llist.l(_UNQUOTE, next_form)
 
 
@@ -1468,7 +1472,7 @@ def _read_deref(ctx: ReaderContext) -> LispForm:
     """Read a derefed form from the input stream."""
     start = ctx.reader.advance()
     assert start == "@"
-    next_form = _read_next_consuming_comment(ctx)
+    next_form = _read_next_form(ctx, "deref form")
     return llist.l(_DEREF, next_form)
 
 
@@ -1747,6 +1751,8 @@ def _read_var_macro(ctx: ReaderContext) -> llist.PersistentList:
     assert ctx.reader.peek() == "'"
     ctx.reader.advance()
     char_next = ctx.reader.peek()
+    if char_next == "":
+        raise ctx.eof_error("Unexpected EOF in var form")
     if char_next == "~":
         s = _read_unquote(ctx)
     else:
@@ -1759,7 +1765,7 @@ def _read_comment_macro(ctx: ReaderContext) -> Comment:
     a comment."""
     assert ctx.reader.peek() == "_"
     ctx.reader.advance()
-    _read_next_consuming_comment(ctx)  # Ignore the entire next form
+    _read_next_form(ctx, "ignored form")  # Ignore the entire next form
     return COMMENT
 
 
@@ -1768,6 +1774,8 @@ def _read_reader_conditional_macro(ctx: ReaderContext) -> LispReaderForm:
     conditionals."""
     try:
         return _read_reader_conditional(ctx)
+    except UnexpectedEOFError:
+        raise
     except SyntaxError as e:
         raise ctx.syntax_error(e.message).with_traceback(e.__traceback__) from None
 
@@ -1802,7 +1810,7 @@ def _read_reader_macro(ctx: ReaderContext) -> LispReaderForm:
             elif s.name == "f":
                 return _read_fstr(ctx)
 
-        v = _read_next_consuming_comment(ctx)
+        v = _read_next_form(ctx, "tagged literal")
 
         if not ctx.should_process_tagged_literals:
             return tagged_literal(s, v)
@@ -1822,6 +1830,16 @@ def _read_next_consuming_comment(ctx: ReaderContext) -> RawReaderForm:
         if v is COMMENT or isinstance(v, Comment):
             continue
         return v
+
+
+def _read_next_form(ctx: ReaderContext, owed_by: str) -> RawReaderForm:
+    """Read the next full form from the input stream (consuming any reader comments),
+    raising an UnexpectedEOFError if the input ends before the form which `owed_by`
+    requires."""
+    v = _read_next_consuming_comment(ctx)
+    if v is ctx.eof:
+        raise ctx.eof_error(f"Unexpected EOF in {owed_by}")
+    return v
 
 
 def _read_next_consuming_whitespace(ctx: ReaderContext) -> LispReaderForm:
